@@ -1,22 +1,36 @@
 #!/usr/bin/env python3
-"""Print a markdown table of the kept seeded changes from seeded/*/meta.json."""
+"""Print markdown tables of the kept seeded changes and refactoring twins from seeded/*/meta.json."""
 import json, os
 VERIF = os.path.dirname(os.path.dirname(os.path.abspath(__file__)))
-rows = []
+rows, twins = [], []
 for name in sorted(os.listdir(os.path.join(VERIF, "seeded"))):
     mp = os.path.join(VERIF, "seeded", name, "meta.json")
     if not os.path.exists(mp):
         continue
     m = json.load(open(mp))
     alarmed = m.get("checks_alarmed", {})
+    if m.get("property") is None:
+        fa = m.get("false_alarms", [])
+        ae = m.get("analysis_errors", [])
+        twins.append("| %s | %s | %s | %s |" % (
+            name, m.get("what", "").replace("|", "/"),
+            ("FALSE ALARM: " + ", ".join(fa)) if fa else
+            ("no VIOLATION; exit 2 (idiom not recognised) in " + ", ".join(ae)) if ae
+            else "silent on all 20 checks",
+            m.get("history", "").replace("|", "/")))
+        continue
     rules = "; ".join("%s: %s" % (k, ", ".join(v["rules"]) or ("exit %d" % v["exit"]))
                       for k, v in sorted(alarmed.items()))
     rows.append("| %s | %s | %s | %s | %s | %s |" % (
-        name, m.get("property"), m.get("what", "").replace("|", "/"),
-        m.get("needs", "").replace("|", "/"),
+        name, m.get("property"), (m.get("what") or "").replace("|", "/"),
+        (m.get("needs") or "").replace("|", "/"),
         "yes" if m.get("caught_by_own_property_check") else
         ("by another check" if m.get("caught_by_any_check") else "NO"),
         (rules or "-") + ((" — " + m["history"]) if m.get("history") else "")))
-print("| seed | property | change | needs, to manifest | caught | rules that fire / history |")
+print("| seed | property | change | needs, to manifest | caught by its own check | rules that fire (final sweep) — history |")
 print("|---|---|---|---|---|---|")
 print("\n".join(rows))
+print()
+print("| refactoring | edits | final sweep | history |")
+print("|---|---|---|---|")
+print("\n".join(twins))
